@@ -213,17 +213,64 @@ def short(t: Optional[Term]) -> str:
 
 
 # --------------------------------------------------------------------------- decision tables
-def split_conds(p: Path, is_model_atom: Callable[[Term], bool]) -> Tuple[List[Tuple[Term, bool]], List[Tuple[Term, bool]], List[Tuple[Term, bool]]]:
-    """Partition path decisions into (modelled, environmental, mixed)."""
-    model, envc, mixed = [], [], []
-    for c, pol, _ in p.conds:
-        atoms = [s for s in subterms(c) if s[0] in ("attr", "sym", "sub", "call", "name") ]
-        has_model = any(is_model_atom(s) for s in subterms(c))
-        if not has_model:
-            envc.append((c, pol))
-            continue
-        model.append((c, pol))
-    return model, envc, mixed
+@dataclass
+class Case:
+    conds: List[Tuple[Term, bool]]
+    outcome: Callable[[World], Any]
+    descr: str = ""
+
+
+def table_check_cases(
+    ctx: Ctx, f: FuncInfo, node: Optional[ast.AST], construct: str, cases: List[Case],
+    worlds: Iterable[Dict[str, Any]], is_model_atom: Callable[[Term], bool],
+    spec: Callable[[Dict[str, Any]], Any], rename: Optional[Callable[[str], str]] = None,
+    describe_world: Optional[Callable[[Dict[str, Any]], str]] = None, need_cover: bool = True,
+) -> Instance:
+    """T6: for every world of the finite model, every case (path) consistent with the world
+    must yield the specified outcome, and at least one case must be consistent.
+    Decisions that mention no modelled atom are environmental: they do not restrict the world."""
+    prepared = []
+    for c in cases:
+        model = [(t, pol) for t, pol in c.conds if any(is_model_atom(x) for x in subterms(t))]
+        prepared.append((c, model))
+    nworlds = 0
+    mism: List[Dict[str, Any]] = []
+    nmis = 0
+    for wv in worlds:
+        nworlds += 1
+        w = World(wv, rename)
+        want = spec(wv)
+        matched = 0
+        wd = describe_world(wv) if describe_world else {k: repr(v) for k, v in wv.items()}
+        for c, model in prepared:
+            try:
+                ok = all(bool(w.eval(t)) == pol for t, pol in model)
+            except Unrecognised as ex:
+                return ctx.unrec(f, node, construct, f"path condition outside the finite model: {ex}")
+            if not ok:
+                continue
+            matched += 1
+            try:
+                got = c.outcome(w)
+            except Unrecognised as ex:
+                return ctx.unrec(f, node, construct, f"outcome outside the finite model: {ex}")
+            if got != want:
+                nmis += 1
+                if len(mism) < 6:
+                    mism.append({"world": wd, "expected": repr(want), "found": repr(got), "path": c.descr[:400]})
+        if matched == 0 and need_cover:
+            nmis += 1
+            if len(mism) < 6:
+                mism.append({"world": wd, "expected": repr(want), "found": "no path is consistent with this world"})
+    ctx.stats["worlds"] += nworlds
+    if nmis:
+        first = mism[0]
+        return ctx.violated(
+            f, node, construct, "decision table equals the specification in every world",
+            f"{nmis} mismatches over {nworlds} worlds; e.g. world {first['world']}: expected {first['expected']}, found {first['found']}",
+            worlds=nworlds, mismatches=mism,
+        )
+    return ctx.holds(f, node, construct, expected="decision table equals the specification", found=f"{nworlds} worlds agree", worlds=nworlds)
 
 
 def table_check(
@@ -233,56 +280,12 @@ def table_check(
     rename: Optional[Callable[[str], str]] = None, relevant: Optional[Callable[[Path], bool]] = None,
     describe_world: Optional[Callable[[Dict[str, Any]], str]] = None,
 ) -> Instance:
-    """T6: for every world of the finite model, every path consistent with the world must
-    yield the specified outcome, and at least one path must be consistent."""
-    nworlds = 0
-    mismatches: List[Dict[str, Any]] = []
-    uncovered = 0
-    prepared = []
+    cases = []
     for p in paths:
         if relevant is not None and not relevant(p):
             continue
-        model, _, _ = split_conds(p, is_model_atom)
-        prepared.append((p, model))
-    for wv in worlds:
-        nworlds += 1
-        w = World(wv, rename)
-        want = spec(wv)
-        matched = 0
-        for p, model in prepared:
-            try:
-                ok = all(bool(w.eval(c)) == pol for c, pol in model)
-            except Unrecognised as ex:
-                return ctx.unrec(f, node, construct, f"path condition outside the finite model: {ex}")
-            if not ok:
-                continue
-            matched += 1
-            try:
-                got = outcome(p, w)
-            except Unrecognised as ex:
-                return ctx.unrec(f, node, construct, f"outcome outside the finite model: {ex}")
-            if got != want and len(mismatches) < 8:
-                mismatches.append({
-                    "world": describe_world(wv) if describe_world else {k: repr(v) for k, v in wv.items()},
-                    "expected": repr(want), "found": repr(got), "path": p.describe()[:400],
-                })
-            elif got != want:
-                mismatches.append({})
-        if matched == 0 and want != "<any>":
-            uncovered += 1
-            if len(mismatches) < 8:
-                mismatches.append({
-                    "world": describe_world(wv) if describe_world else {k: repr(v) for k, v in wv.items()},
-                    "expected": repr(want), "found": "no path is consistent with this world",
-                })
-    ctx.stats["worlds"] += nworlds
-    if mismatches:
-        return ctx.violated(
-            f, node, construct, "decision table equals the specification in every world",
-            f"{len(mismatches)} of {nworlds} worlds differ", worlds=nworlds,
-            mismatches=[m for m in mismatches if m][:8],
-        )
-    return ctx.holds(f, node, construct, expected="decision table equals the specification", found=f"{nworlds} worlds agree", worlds=nworlds)
+        cases.append(Case([(c, pol) for c, pol, _ in p.conds], (lambda w, p=p: outcome(p, w)), p.describe()))
+    return table_check_cases(ctx, f, node, construct, cases, worlds, is_model_atom, spec, rename, describe_world)
 
 
 def weak_orders(names: Sequence[str]) -> Iterable[Dict[str, int]]:
